@@ -596,9 +596,20 @@ func runAgent(sc agentScript) (obs agentObs) {
 			mu.Lock()
 			want := int64(len(obs.sent)+obs.filtered+obs.malformed+obs.early+obs.unstamped) - linesBefore
 			mu.Unlock()
+			// … and, because hostile lines are counted by the agent but not by `want` (how many records a stream of garbage
+			// makes is not the harness's to say), until the counters have stopped moving: everything sent has been read
+			lastSeen, lastChange := int64(-1), time.Now()
 			for deadline := time.Now().Add(10 * time.Second); !(sc.linger && !last) && time.Now().Before(deadline); {
 				mm := dumpGatherer(ld.GetMetricGatherer())
-				if mm["input_passed_records_total"]+mm["input_dropped_records_total"] >= want {
+				cur := mm["input_passed_records_total"] + mm["input_dropped_records_total"]
+				if cur != lastSeen {
+					lastSeen, lastChange = cur, time.Now()
+				}
+				settle := 0 * time.Millisecond
+				if sc.hostile {
+					settle = 60 * time.Millisecond
+				}
+				if cur >= want && time.Since(lastChange) >= settle {
 					break
 				}
 				time.Sleep(5 * time.Millisecond)
